@@ -37,6 +37,7 @@ type c06Case struct {
 	RecvRev  bool     `json:"recvrev,omitempty"`  // recovery packets in descending order, duplicated
 	Big      int      `json:"big,omitempty"`      // 0: tiny files; 1, 2: files above 16 KiB (17000 and 16500 bytes, slice 500), generation Big-1 of the content beyond the first 16 KiB
 	PriorGen bool     `json:"priorgen,omitempty"` // history in the process: the OTHER generation of the same set (same names, lengths, first 16 KiB => same file ids and set id; other content) was verified first, in a directory of its own
+	Stray    int      `json:"stray,omitempty"`    // a file matching <base>.*.par2 that holds only another set's packets: 1 = listed first, 2 = between the volumes, 3 = last, 4 = first and last
 	Damage   string   `json:"damage"`             // none, del0, del1, ovw0, ovw1
 	G        int      `json:"g,omitempty"`
 }
@@ -108,6 +109,10 @@ func c06Alternatives(allPerms bool) []func(*c06Case) {
 	for _, n := range []int{2, 3} {
 		n := n
 		alts = append(alts, func(c *c06Case) { c.NVol = n })
+	}
+	for st := 1; st <= 4; st++ {
+		st := st
+		alts = append(alts, func(c *c06Case) { c.Stray = st })
 	}
 	for _, vn := range [][]string{{"x", "y", "z"}, {"a b", "c d", "e"}, {"v[1]", "v[2]", "v[3]"}, {"v*", "w?", "u\\"}, {"vol000+01", "vol001+02", "vol003+99"}, {"par2", "vol.par2", ".."}} {
 		vn := vn
@@ -377,6 +382,21 @@ func c06Run(ci interface{}, r *core.Rec) {
 			pk = insert(pk, c.Foreign-1, foreignPkt)
 		}
 		write(dirL, c.Base+"."+vn[v%len(vn)]+".par2", rpar2.Join(pk...))
+	}
+	if c.Stray != 0 {
+		strayBytes := rpar2.Join(other.CorePackets("refwriter")...)
+		first, mid, last := c.Base+".!first.par2", c.Base+"."+vn[0]+"~.par2", c.Base+".~last.par2"
+		switch c.Stray {
+		case 1:
+			write(dirL, first, strayBytes)
+		case 2:
+			write(dirL, mid, strayBytes)
+		case 3:
+			write(dirL, last, strayBytes)
+		case 4:
+			write(dirL, first, strayBytes)
+			write(dirL, last, strayBytes)
+		}
 	}
 	// canonical set by gopar itself with as many blocks as the layout has
 	indexC := filepath.Join(dirC, "s.par2")
